@@ -17,13 +17,21 @@ def gen_ops(r, with_client):
     return ops
 
 def demo_half(res, tier, r):
-    """--cores n on the real demos: count the threads the process creates (strace clone/clone3)"""
-    from demos import build_demos, write_dimacs
+    """--cores n on the real demos: the demo's own main() (compiled from the working tree with `main` renamed) runs
+    in-process; afterwards TBB's allowed parallelism must be n, and while it ran at most n threads were inside the
+    main arena at the same time.  (An earlier version counted clone() calls under strace: oneTBB's lazy, chained worker
+    start-up makes that count load-dependent — it raised a false alarm on a busy machine and was replaced.)"""
+    from demos import write_dimacs
     from graphs import gnp, weights
-    bdir, log = build_demos(["mcb-dimacs", "approx-mcb-dimacs"])
-    if bdir is None:
-        res.violation("demos do not build from the working tree", {"kind": "compile", "log": log[-3000:]}, found=False)
-        return 0, []
+    bins = {}
+    for prog in ("mcb-dimacs", "approx-mcb-dimacs"):
+        b, log = compile_harness("h_demo_knob.cpp", out_name="h_demo_knob_" + prog.replace("-", "_"),
+                                 flags=('-DDEMO_SRC="%s"' % os.path.join(REPO, "src", prog + ".cpp"),),
+                                 libs=("-ltbb", "-lboost_timer", "-lboost_program_options", "-lboost_thread", "-lboost_system", "-lpthread"))
+        if b is None:
+            res.violation("demo source does not compile from the working tree", {"kind": "compile", "log": log[-3000:]}, found=False)
+            return 0, []
+        bins[prog] = b
     n = 170
     E = gnp(r, n, 0.06)
     WE, _ = weights(r, E, "wide")
@@ -31,22 +39,26 @@ def demo_half(res, tier, r):
     write_dimacs(f, n, WE)
     runs, bad = 0, []
     combos = []
+    algos = [[], ["--signed=false", "--fvstrees=true"], ["--signed=false", "--fvstrees=false", "--isotrees=true"]]
     for prog, extra in (("mcb-dimacs", []), ("approx-mcb-dimacs", ["--k", "2"])):
         for cores in ([1, 2, 3] if tier == "quick" else [1, 2, 3, 5, 8]):
             for verbose in (False, True):
-                for unrelated in ([], ["--printcycles=true"]):
-                    if tier == "quick" and unrelated and cores != 2: continue
-                    combos.append((prog, extra, cores, verbose, unrelated))
+                for ai, algo in enumerate(algos):
+                    for unrelated in ([], ["--printcycles=true"]):
+                        if tier == "quick" and unrelated and cores != 2: continue
+                        if tier == "quick" and ai and verbose: continue
+                        combos.append((prog, extra + algo, cores, verbose, unrelated))
     for prog, extra, cores, verbose, unrelated in combos:
-        cmd = ["strace", "-f", "-qq", "-e", "trace=clone,clone3", os.path.join(bdir, prog), "--parallel=true", "--cores", str(cores)] + \
-              (["--verbose=true"] if verbose else []) + extra + unrelated + [f]
+        cmd = [bins[prog], "--parallel=true", "--cores", str(cores)] + (["--verbose=true"] if verbose else []) + extra + unrelated + [f]
         p = sh(cmd, stdout=subprocess.PIPE, stderr=subprocess.PIPE, timeout=600)
-        created = len(re.findall(r"clone3?\(", p.stderr))
+        m = re.search(r"knob active=(\d+) maxconc=(\d+) distinct=(\d+) rc=(-?\d+)", p.stdout)
         runs += 1
-        # calibration on this image (oneTBB 2021.8, 16 hardware threads): with a limit of n in force the
-        # process creates n+1 threads, with no limit in force it creates hw-1 = 15; n <= 8 keeps the two apart
-        if p.returncode != 0 or created > cores + 1:
-            bad.append({"cmd": cmd[5:], "threads_created": created, "allowed": cores, "exit": p.returncode})
+        if p.returncode != 0 or not m or int(m.group(4)) != 0:
+            bad.append({"cmd": [prog] + cmd[1:], "why": "demo did not run to completion", "exit": p.returncode, "allowed": cores}); continue
+        active, maxconc = int(m.group(1)), int(m.group(2))
+        if active != cores or maxconc > cores:
+            bad.append({"cmd": [prog] + cmd[1:], "active_value_after": active, "max_threads_in_arena": maxconc, "allowed": cores, "exit": p.returncode})
+    for b in bad: b["dimacs"] = open(f).read()
     return runs, bad
 
 def run(tier, replay=None):
@@ -93,7 +105,7 @@ def run(tier, replay=None):
     if not replay:
         druns, dbad = demo_half(res, tier, r)
     res.coverage.update({"evaluations": len(cases) + druns, "distinct_nontrivial": len({json.dumps(o) for o in cases.values()}) + druns,
-        "rule": "library half: one process per random call sequence (set n / client-side controls / active_value queries / parallel regions with thread-id counting); demo half: mcb-dimacs and approx-mcb-dimacs under strace for --cores n x -v on/off x unrelated flags; distinct by sequence / command line",
+        "rule": "library half: one process per random call sequence (set n / client-side controls / active_value queries / parallel regions with thread-id counting); demo half: the mains of mcb-dimacs and approx-mcb-dimacs run in-process for --cores n x -v on/off x algorithm selection x unrelated flags, allowed parallelism queried afterwards and arena occupancy observed; distinct by sequence / command line",
         "traces_validated_against_impl": len(oks), "demo_runs": druns, "samples": [list(cases.values())[0]]})
     if bad_prop:
         res.violation("set_global_tbb_concurrency(n) does not make the allowed parallelism n", {"kind": "ops", **bad_prop[0], "count": len(bad_prop)})
